@@ -166,7 +166,7 @@ func TestVerifC13(t *testing.T) {
 				pads := []string{"skippable-event-before", "skippable-event-after"}
 				if vrt.PathBlobField(j.path) != "" {
 					// a batch with nothing to map before / after the batch that holds the mapped name; the batch JSON-encoded
-					pads = append(pads, "unmatched-batch-before", "unmatched-batch-after", "json-encoded-blob")
+					pads = append(pads, "unmatched-batch-before", "unmatched-batch-after", "json-encoded-blob", "empty-batch-before")
 				}
 				for _, pad := range pads {
 					msg := vfBuildAtPadded(j.root, j.path, v, pad)
